@@ -255,15 +255,18 @@ def stage_and_check(run, AH, truth, flags, tracers, chunk, n_chunks, desc):
         return True
     hd, pd = obj.halo_data, obj.particle_data
     # the object staged before this one keeps its own data (nothing shared between objects)
-    prev = getattr(stage_and_check, '_prev', None)
-    if prev is not None:
-        for name, snap in prev[1].items():
-            cur = prev[0].halo_data.get(name) if name in prev[0].halo_data else prev[0].particle_data.get(name)
+    # (the last three objects stay alive, as the chunk objects of one script do; every array of theirs is compared, host indices included)
+    held = getattr(stage_and_check, '_held', [])
+    for prev in held:
+        for (kind, name), snap in prev[1].items():
+            cur = (prev[0].halo_data if kind == 'h' else prev[0].particle_data).get(name)
             if cur is None or not np.array_equal(np.asarray(cur), snap, equal_nan=True):
                 run.violation('staging-earlier-object-changed', dict(array=name, earlier_case=prev[2], **desc))
                 break
         run.count('earlier_objects_rechecked')
-    stage_and_check._prev = (obj, {n: np.array(v) for n, v in list(hd.items())[:6] + list(pd.items())[:4] if isinstance(v, np.ndarray)}, desc.get('case'))
+    snap = {('h', n): np.array(v) for n, v in hd.items() if isinstance(v, np.ndarray)}
+    snap.update({('p', n): np.array(v) for n, v in pd.items() if isinstance(v, np.ndarray)})
+    stage_and_check._held = (held + [(obj, snap, desc.get('case'))])[-3:]
     nslab = len(truth['slabs'])
     n_jump = int(np.ceil(nslab / n_chunks))
     c = 0 if chunk == -1 else chunk
@@ -378,6 +381,11 @@ def check(run):
             # internally sorted slabs of equal size in decreasing order: every descent sits on a slab boundary
             nslab, S = [(2, 8), (4, 8), (4, 4), (2, 3), (8, 2), (16, 1), (2, 6), (3, 5)][(k // 6) % 8]
             hps, order = [S] * nslab, 'decreasing_slabs'
+        if k % 10 == 8:
+            # eleven or more slabs (file names whose numbers do not sort as text), loaded in chunks
+            nslab = [12, 11, 14, 16][(k // 10) % 4]
+            hps = [int(rng.integers(2, 12)) for _ in range(nslab)]
+            run.count('cases_with_eleven_or_more_slabs')
         if k % 6 == 4:
             idbase = 1 << 60  # ids beyond 2^53 (still valid int64)
         # no staged particles: a secondary redshift (the particle subsample is never opened) or particle files that hold nothing
@@ -391,6 +399,8 @@ def check(run):
         truth = make_dir(rng, nslab, order, flags['want_ranks'], mt or force_mt, hps, scalar_vdev=scalar_vdev, idbase=idbase, z=zmock, no_particles=nopart, lc=lc, short_ranks=short_ranks, zero_r25=(k % 7 == 2))
         try:
             chunkings = [(-1, 1)]
+            if nslab >= 11:
+                chunkings += [(0, 2), (1, 2), (2, 3)]
             if nslab >= 2 and k % 3 == 0:
                 nch = int(rng.integers(2, nslab + 1))
                 chunkings += [(int(rng.integers(0, nch)), nch)]
